@@ -16,7 +16,7 @@ EXPLANATION = (
     'of this namespace, that entry), LocalInsert only under origin Local; (R4) unsubscribe retains exactly the senders that'
     ' are not the same channel and the per-subscriber delivery future, evaluated with awaits driven to completion, keeps a '
     'subscriber whose send of this event succeeded (a closed one may be dropped), the list being rebuilt from the previous '
-    'senders. (R5) the meaning of the policy the flag is computed by: DownloadPolicy::matches and FilterKind::matches evaluated (shared with C15.R1). (R6) the store actor forwards InsertRemote / SyncProcessMessage / Subscribe / Unsubscribe one to one (the store-actor handler evaluated with the fields of the request as named tokens and gates / store / replica calls answered by an oracle, each step also failing in turn: the own fields of the request reach the core function in order on the addressed document, nothing is carried out after a failed step, the reply is the result of that function; the SyncHandle method evaluated: one request of its own kind, addressed to its namespace argument, each field one of its own parameters, the reply of the actor returned); insert_remote_entry builds origin Sync { from, remote_content_status } from its own arguments. NOT decided: order of delivery across subscribers under back-pressure.'
+    'senders. (R5) the meaning of the policy the flag is computed by: DownloadPolicy::matches and FilterKind::matches evaluated (shared with C15.R1). (R6) the store actor forwards InsertRemote / SyncProcessMessage / Subscribe / Unsubscribe one to one (the store-actor handler evaluated with the fields of the request as named tokens and gates / store / replica calls answered by an oracle, each step also failing in turn: the own fields of the request reach the core function in order on the addressed document, nothing is carried out after a failed step, the reply is the result of that function; the SyncHandle method evaluated: one request of its own kind, addressed to its namespace argument, each field one of its own parameters, the reply of the actor returned); insert_remote_entry builds origin Sync { from, remote_content_status } from its own arguments. (R7) who-may-write: the open replica info / subscriber list is never assigned or mem-replaced after the replica was opened. NOT decided: order of delivery across subscribers under back-pressure.'
 )
 ASSUMPTIONS = ["async_channel delivers a sent event exactly once to its receiver", "generic callbacks bound to the closures of the unique production call"]
 
@@ -339,6 +339,54 @@ def r6(ctx):
     ctx.floor("C12.R6", 18)
 
 
+def r7(ctx):
+    """the subscribers of an open replica live in OpenReplica.info (a ReplicaInfo) / ReplicaInfo.subscribers: nothing but the
+    subscriber bookkeeping itself may replace them while the replica is open - an assignment of a fresh ReplicaInfo (or of a
+    fresh subscriber list) drops every subscriber silently (who-may-write over all bodies, incl. mem::replace / swap / take)"""
+    from .common import uses_of_local
+    f = ctx.facts
+    FIELDS = (("info", "sync::ReplicaInfo"), ("subscribers", "sync::Subscribers"))
+    n_cons = 0
+    seen_fields = set()
+    for b in f.bodies.values():
+        if b.rec.get("derived"):
+            continue
+        for bi, si, s in b.statements():
+            if s["k"] != "assign":
+                continue
+            pp = s["p"]["p"]
+            for fname, fty in FIELDS:
+                if pp and pp[-1][0] == "field" and pp[-1][2] == fname and len(pp[-1]) > 3 and pp[-1][3] == fty:
+                    ctx.bad("C12.R7", b.path, "assigns-%s" % fname, "the open replica's %s is overwritten: its subscribers are dropped without having unsubscribed" % fname, s["sp"])
+                r = s["r"]
+                if r[0] == "ref" and r[1] == "mut":
+                    rp = r[2]["p"]
+                    if rp and rp[-1][0] == "field" and rp[-1][2] == fname and len(rp[-1]) > 3 and rp[-1][3] == fty:
+                        seen_fields.add(fname)
+                        dl = s["p"]["l"]
+                        seen = {dl}
+                        frontier = [dl]
+                        sinks = []
+                        while frontier:
+                            l = frontier.pop()
+                            for ubi, usi, u in uses_of_local(b, l):
+                                if usi == "t" and u["k"] == "call":
+                                    sinks.append(u)
+                                elif usi != "t" and u["k"] == "assign" and not u["p"]["p"] and u["p"]["l"] not in seen:
+                                    seen.add(u["p"]["l"])
+                                    frontier.append(u["p"]["l"])
+                        badk = [u["f"].get("name") for u in sinks if (u["f"].get("name") in ("replace", "swap", "take") and "mem::" in (u["f"].get("path") or "") + (u["f"].get("full") or ""))]
+                        ctx.check(not badk, "C12.R7", b.path, "mut-borrow-of-%s-not-replaced" % fname, "&mut %s flows to %s" % (fname, [u["f"].get("name") for u in sinks]), s["sp"])
+            r = s["r"]
+            if r[0] == "agg" and r[1][0] == "adt" and r[1][1] == "actor::OpenReplica":
+                n_cons += 1
+                ctx.check(f.only_reached_from(b.path, {"actor::OpenReplicas::open_with"}) or b.path == "actor::OpenReplicas::open_with", "C12.R7", b.path, "constructs-OpenReplica",
+                          "the open state of a replica is built only when it is opened", s["sp"])
+    if n_cons < 1 or not seen_fields:
+        raise mir.AnchorMissing("expected a construction of OpenReplica and a &mut borrow of its info / the subscriber list (found %d, %s)" % (n_cons, sorted(seen_fields)))
+    ctx.floor("C12.R7", 2)
+
+
 def run(ctx):
     ctx.run_rule("C12.R1", r1)
     ctx.run_rule("C12.R2", r2)
@@ -346,3 +394,4 @@ def run(ctx):
     ctx.run_rule("C12.R4", r4)
     ctx.run_rule("C12.R5", r5)
     ctx.run_rule("C12.R6", r6)
+    ctx.run_rule("C12.R7", r7)
